@@ -152,6 +152,8 @@ focus(struct initparser *p)
 		p->sub->u.idx = 0;
 		if (p->sub->type->incomplete)
 			p->sub->type->size = t->size;
+		else if (p->sub->type->size == 0)
+			error(&tok.loc, "too many initializers for zero-length array");
 		break;
 	case TYPESTRUCT:
 	case TYPEUNION:
